@@ -279,6 +279,8 @@ def judgeWedge (inp impl : Json) : Verdict :=
   let running := bool (field impl "running")
   let late := str (field impl "late")
   let lateCbs := nat (field impl "lateCbs")
+  let cbsCall := (arr (field impl "cbsCall")).map intList
+  let retained := cbsCall == cbs && !(bool (field impl "shared"))
   let perReq := ids.all fun i => Spec.reqOK (names i) (classOfRet (rets.getD i "")) ((cbs.getD i []).map cbOfInt)
   let cbRunning := cbs.any fun l => l.contains (-3)
   let refused := Spec.refusedOK (classOfRet late) (List.replicate lateCbs none)
@@ -286,6 +288,7 @@ def judgeWedge (inp impl : Json) : Verdict :=
     if !readerDone then "deadlock: the output reader (consumeOutput) did not finish within 10 s"
     else if !waitRet then "deadlock: waitForResponses did not return although the output reader had finished long ago — it waits for a client process that never ends"
     else if !stopRet then "deadlock: stop() did not return — it waits for a client process that never ends"
+    else if !retained then s!"a response handed to a completion callback was written after the hand-over: called with {cbsCall}, holding {cbs} at the end (same object handed twice: {bool (field impl "shared")})"
     else if !perReq then "exactly-once/own-response violated: rets " ++ toString rets ++ " callbacks " ++ toString cbs
     else if !refused then "send after shutdown not refused: " ++ late
     else if cbRunning then "isRunning() still true inside the completion callback that reports the failure of the client's output stream"
@@ -339,11 +342,14 @@ def judgeRawOut (inp impl : Json) : Verdict :=
   let errClass := str (field impl "errClass")
   let late := str (field impl "late")
   let lateCbs := nat (field impl "lateCbs")
+  let cbsCall := (arr (field impl "cbsCall")).map intList
+  let retained := cbsCall == cbs && !(bool (field impl "shared"))
   let perReq := ids.all fun i => Spec.reqOK (names i) (classOfRet (rets.getD i "")) ((cbs.getD i []).map cbOfInt)
   let cbRunning := cbs.any fun l => l.contains (-3)
   let refused := Spec.refusedOK (classOfRet late) (List.replicate lateCbs none)
   let why :=
     if hang != "" then "deadlock: " ++ hang ++ " did not return within 10 s"
+    else if !retained then s!"a response handed to a completion callback was written after the hand-over: called with {cbsCall}, holding {cbs} at the end (same object handed twice: {bool (field impl "shared")})"
     else if !perReq then "exactly-once/own-response violated: rets " ++ toString rets ++ " callbacks " ++ toString cbs
     else if !refused then "send after shutdown not refused: " ++ late
     else if cbRunning then "isRunning() still true inside the completion callback that reports the failure of the client's output stream"
@@ -394,6 +400,10 @@ def handle : Handler := fun op inp impl =>
       let late := str (field o "late")
       let lateCbs := nat (field o "lateCbs")
       let hang := str (field o "hang")
+      -- the callbacks retain the responses: what they hold at the end (cbs) must be what they were
+      -- called with (cbsCall), and no two callbacks may have been handed the same object
+      let cbsCall := (arr (field o "cbsCall")).map intList
+      let retained := hang != "" || (cbsCall == cbs && !(bool (field o "shared")))
       let key := obsKey rets (cbs.map fun l => sortInts (l.map fun v => if v == -5 then -4 else v)) runAtDone wait running late lateCbs
       let perReq := (List.range n).all fun i =>
         Spec.reqOK (sc.names i) (classOfRet (rets.getD i "")) ((cbs.getD i []).map cbOfInt)
@@ -406,6 +416,7 @@ def handle : Handler := fun op inp impl =>
       let cleanOK := !clean || ((List.range n).all fun i => rets.getD i "" == "ok" && cbs.getD i [] == [(sc.names i : Int)]) && wait == "nil"
       let why :=
         if hang != "" then "deadlock: " ++ hang ++ " did not return within 10 s"
+        else if !retained then s!"a response handed to a completion callback was written after the hand-over: the callbacks were called with {cbsCall} and hold {cbs} now that the scenario has ended (two callbacks were handed the same message object: {bool (field o "shared")}) — not 'that test's own response' for a consumer that keeps it"
         else if !perReq then "exactly-once/own-response violated: rets " ++ toString rets ++ " callbacks " ++ toString cbs
         else if !causal then "a callback received a response the client never wrote"
         else if !refused then "send after shutdown not refused: " ++ late
